@@ -5,7 +5,7 @@
 // tuple of a box.  Oracle: long double libm (64-bit mantissa), principal values with atan2 conventions.
 // Tolerance: 8 rounding units of the result's scale, multiplied by the condition number of the evaluation
 // where the exponent / argument itself has to be rounded (stated at each use).
-#include "vf.hpp"
+#include "vf_fork.hpp"
 
 #include <stdexcept>
 
@@ -51,16 +51,59 @@ static double units_c(cmplx_t got, cld ref, double cond = 1) {
 static std::string cs(cmplx_t z) { return fmt("%.17g%+.17gi", z.re, z.im); }
 static std::string cs(cld z) { return fmt("%.20Lg%+.20Lgi", z.real(), z.imag()); }
 
-static arr_real mkr(const std::vector<double>& v) {
-    arr_real a((int)v.size());
-    for (size_t i = 0; i < v.size(); ++i) a[(int)i] = v[i];
+// How the storage of an operand was obtained.  A function that reads one element past the logical end sees allocator
+// metadata behind an exact-fit array (usually harmless values) but STALE DATA behind an array whose vector has spare
+// capacity: arr(std::move(vector)) adopts a vector that was shrunk, mask selection x[mask] reserves the full length.
+enum Storage { EXACT = 0, SPARE = 1, MASKED = 2 };
+static const char* STN[3] = {"exact-fit", "spare-capacity-stale", "mask-selected"};
+static bool g_asan = false;   // the ASan pass uses exact-fit storage only: an over-read must leave the heap block to be reported
+static arr_real build_r(const std::vector<double>& v, int st) {
+    const size_t n = v.size();
+    if (st == SPARE) {
+        std::vector<double> w(n + 8, 1e6);   // eight stale values behind the logical end
+        w.resize(n);
+        std::copy(v.begin(), v.end(), w.begin());
+        return arr_real(std::move(w));
+    }
+    if (st == MASKED) {
+        arr_real big((int)(2 * n + 5));
+        std::vector<bool> mask(2 * n + 5, false);
+        for (size_t i = 0; i < 2 * n + 5; ++i) big[(int)i] = -1e6;
+        for (size_t i = 0; i < n; ++i) {
+            big[(int)(2 * i + 1)] = v[i];
+            mask[2 * i + 1] = true;
+        }
+        return big[mask];
+    }
+    arr_real a((int)n);
+    for (size_t i = 0; i < n; ++i) a[(int)i] = v[i];
     return a;
 }
-static arr_cmplx mkc(const std::vector<cmplx_t>& v) {
-    arr_cmplx a((int)v.size());
-    for (size_t i = 0; i < v.size(); ++i) a[(int)i] = v[i];
+static arr_cmplx build_c(const std::vector<cmplx_t>& v, int st) {
+    const size_t n = v.size();
+    if (st == SPARE) {
+        std::vector<cmplx_t> w(n + 8, cmplx_t(1e6, -1e6));
+        w.resize(n);
+        std::copy(v.begin(), v.end(), w.begin());
+        return arr_cmplx(std::move(w));
+    }
+    if (st == MASKED) {
+        arr_cmplx big((int)(2 * n + 5));
+        std::vector<bool> mask(2 * n + 5, false);
+        for (size_t i = 0; i < 2 * n + 5; ++i) big[(int)i] = cmplx_t(-1e6, 1e6);
+        for (size_t i = 0; i < n; ++i) {
+            big[(int)(2 * i + 1)] = v[i];
+            mask[2 * i + 1] = true;
+        }
+        return big[mask];
+    }
+    arr_cmplx a((int)n);
+    for (size_t i = 0; i < n; ++i) a[(int)i] = v[i];
     return a;
 }
+// element-wise checks rotate through the three kinds of storage with the array length
+static arr_real mkr(const std::vector<double>& v) { return build_r(v, g_asan ? EXACT : (int)(v.size() % 3)); }
+static arr_cmplx mkc(const std::vector<cmplx_t>& v) { return build_c(v, g_asan ? EXACT : (int)(v.size() % 3)); }
 template<class T>
 static std::vector<T> cyc(const std::vector<T>& v, int L) {   // length-L array cycling through v, start depends on L (element i is tagged by its value)
     std::vector<T> o((size_t)L);
@@ -775,7 +818,8 @@ static bool red_ok(Ctx& ctx, const char* key, double got, ld ref, double tol) {
 static void run_reductions(Ctx& ctx) {
     for (int cplx = 0; cplx < 2; ++cplx)
         for (int l = 0; l < NLET; ++l)
-            for (int n : lengths()) {
+            for (int n : lengths())
+              for (int st = 0; st < 3; ++st) {   // storage of both operands: exact fit / spare capacity with stale data / mask selection
                 const char* ty = cplx ? "cmplx" : "real";
                 std::vector<cld> x((size_t)n), y((size_t)n);
                 for (int i = 0; i < n; ++i) {
@@ -788,9 +832,17 @@ static void run_reductions(Ctx& ctx) {
                         y[(size_t)i] = cld(rlet((l + 3) % NLET, n - 1 - i, n), 0);
                     }
                 }
-                const arr_cmplx xc = to_arr(x), yc = to_arr(y);
-                const arr_real xr = to_arr_real(x), yr = to_arr_real(y);
-                const P par = P().kv("type", ty).kv("letter", LET[l]).kv("n", n);
+                std::vector<double> vxr, vyr;
+                std::vector<cmplx_t> vxc, vyc;
+                for (int i = 0; i < n; ++i) {
+                    vxr.push_back((double)x[(size_t)i].real());
+                    vyr.push_back((double)y[(size_t)i].real());
+                    vxc.push_back(cmplx_t((double)x[(size_t)i].real(), (double)x[(size_t)i].imag()));
+                    vyc.push_back(cmplx_t((double)y[(size_t)i].real(), (double)y[(size_t)i].imag()));
+                }
+                const arr_cmplx xc = build_c(vxc, st), yc = build_c(vyc, st);
+                const arr_real xr = build_r(vxr, st), yr = build_r(vyr, st);
+                const P par = P().kv("type", ty).kv("letter", LET[l]).kv("n", n).kv("storage", STN[st]);
                 const double ne = (n + 8) * EPS;
                 ld sabs = 0, sabs2 = 0, maxabs = 0;
                 cld s = 0;
@@ -1332,15 +1384,125 @@ static void run_shapes(Ctx& ctx) {
     }
 }
 
+// dot(x, y) for every n in 0..64 (and 65, 127, 129, 1001, 65537): two letters, three kinds of operand storage
+// (independently for x and y), real and complex, against the long-double sum
+static void run_dot_sweep(Ctx& ctx) {
+    std::vector<int> ns;
+    for (int n = 0; n <= 64; ++n) ns.push_back(n);
+    for (int n : {65, 127, 129, 1001, 65537}) ns.push_back(n);
+    for (int n : ns)
+        for (int cplx = 0; cplx < 2; ++cplx)
+            for (int l = 0; l < 2; ++l)
+                for (int sx = 0; sx < 3; ++sx)
+                    for (int sy = 0; sy < 3; ++sy) {
+                        if (!ctx.take("reduce.dot.sweep", P().kv("type", cplx ? "cmplx" : "real").kv("n", n).kv("letter", l ? "lcg" : "index").kv("sx", STN[sx]).kv("sy", STN[sy]))) continue;
+                        if (n >= 2) ctx.nontrivial();
+                        std::vector<double> xr, yr;
+                        std::vector<cmplx_t> xc, yc;
+                        cld ref = 0, h1 = 0, h2 = 0;
+                        ld terms = 0;
+                        for (int i = 0; i < n; ++i) {
+                            const cmplx_t a = l ? cmplx_t(lcg_val(1720, (uint64_t)i) * 3, cplx ? lcg_val(1721, (uint64_t)i) : 0.0) : cmplx_t(i + 1, cplx ? -(i + 2) * 0.5 : 0.0);
+                            const cmplx_t b = l ? cmplx_t(lcg_val(1722, (uint64_t)i) - 0.25, cplx ? lcg_val(1723, (uint64_t)i) : 0.0) : cmplx_t(0.5 * (n - i), cplx ? 1.0 + i : 0.0);
+                            xr.push_back(a.re);
+                            yr.push_back(b.re);
+                            xc.push_back(a);
+                            yc.push_back(b);
+                            const cld ca(a.re, a.im), cb(b.re, b.im);
+                            ref += ca * cb;
+                            h1 += std::conj(ca) * cb;
+                            h2 += ca * std::conj(cb);
+                            terms += (fabsl(ca.real()) + fabsl(ca.imag())) * (fabsl(cb.real()) + fabsl(cb.imag()));
+                        }
+                        const cmplx_t g = cplx ? d::dot(build_c(xc, sx), build_c(yc, sy)) : cmplx_t(d::dot(build_r(xr, sx), build_r(yr, sy)), 0);
+                        const double t = (n + 8) * EPS * (double)terms;
+                        const cld cg(g.re, g.im);
+                        const double e = std::min((double)std::abs(cg - ref), std::min((double)std::abs(cg - h1), (double)std::abs(cg - h2)));
+                        if (t > 0 && e <= t) ctx.worst("dot sweep err/tol (passing cases)", e / t);
+                        if (!(e <= t)) ctx.fail("dot", fmt("dot=%s (n=%d)", cs(g).c_str(), n), cs(ref) + fmt(" +- %.3g", t));
+                    }
+}
+
+// ASan + UBSan pass over a reduced grid: every reduction, every element-wise array overload and the shape functions on
+// EXACT-FIT arrays of every length 0..64 (+ 255, 1000), each length in a forked child: a read or write past the end of
+// an array is reported by the sanitizer and becomes a violation of that case.  Values are checked in the main pass.
+static void run_asan_pass(Ctx& ctx) {
+    std::vector<int> ns;
+    for (int n = 0; n <= 64; ++n) ns.push_back(n);
+    ns.push_back(255);
+    ns.push_back(1000);
+    for (int n : ns) {
+        if (!ctx.take("asan.reduced", P().kv("n", n))) continue;
+        forked(ctx, "reductions / element-wise / shape functions (sanitizer pass)", 60.0, [&](ChildCtx& c) {
+            std::vector<double> vr, wr;
+            std::vector<cmplx_t> vc, wc;
+            for (int i = 0; i < n; ++i) {
+                vr.push_back(0.25 * (i % 7) + 0.5);
+                wr.push_back(1.0 - 0.125 * (i % 5));
+                vc.push_back(cmplx_t(0.25 * (i % 7) + 0.5, -0.5 * (i % 3)));
+                wc.push_back(cmplx_t(1.0 - 0.125 * (i % 5), 0.75));
+            }
+            const arr_real xr = build_r(vr, EXACT), yr = build_r(wr, EXACT);
+            const arr_cmplx xc = build_c(vc, EXACT), yc = build_c(wc, EXACT);
+            volatile double sink = 0;
+            auto use = [&](double v) { sink = sink + v; ++c.evals; };
+            auto user = [&](const arr_real& a) { use(a.size() ? a[a.size() - 1] : 0.0); };
+            auto usec = [&](const arr_cmplx& a) { use(a.size() ? a[a.size() - 1].im : 0.0); };
+            // reductions
+            fb::label("reductions");
+            use(d::sum(xr)); use(d::sum(xc).re); use(d::dot(xr, yr)); use(d::dot(xc, yc).im);
+            user(d::cumsum(xr)); user(d::cumsum(xr, d::Direction::Reverse)); usec(d::cumsum(xc)); usec(d::cumsum(xc, d::Direction::Reverse));
+            for (int p : {1, 2, 3, 8}) { use(d::norm(xr, p)); use(d::norm(xc, p)); }
+            if (n >= 1) {
+                use(d::mean(xr)); use(d::mean(xc).re); use(d::rms(xr)); use(d::rms(xc));
+                use(d::max(xr)); use(d::min(xr)); use(d::max(xc).re); use(d::min(xc).re);
+                use(d::argmax(xr)); use(d::argmin(xr)); use(d::argmax(xc)); use(d::argmin(xc));
+                use(d::peak2peak(xr)); use(d::peak2peak(xc).re);
+            }
+            if (n >= 2) { use(d::stddev(xr)); use(d::stddev(xc)); }
+            // element-wise array overloads
+            fb::label("element-wise");
+            user(d::abs(xr)); user(d::abs(xc)); user(d::abs2(xr)); user(d::abs2(xc)); user(d::angle(xc));
+            user(d::exp(xr)); usec(d::exp(xc)); usec(d::expj(xr)); user(d::log(xr)); user(d::log2(xr)); user(d::log10(xr));
+            user(d::tanh(xr)); usec(d::tanh(xc)); user(d::round(xr)); usec(d::round(xc));
+            user(d::pow2db(xr)); user(d::db2pow(xr)); user(d::mag2db(xr)); user(d::db2mag(xr)); user(d::deg2rad(xr)); user(d::rad2deg(xr));
+            user(d::real(xc)); user(d::imag(xc)); usec(d::conj(xc)); usec(d::complex(xr, yr)); usec(d::complex(xr));
+            user(d::power(xr, yr)); user(d::power(xr, 2.5)); user(d::power(xr, 3)); user(d::power(2.0, xr));
+            usec(d::power(xc, yr)); usec(d::power(xc, 2.5)); usec(d::power(xc, 3)); usec(d::power(cmplx_t(1, 1), xr));
+            // shape functions
+            fb::label("shapes");
+            for (int f : {1, 2, 3}) {
+                for (int ph = 0; ph < f; ++ph) {
+                    user(d::upsample(xr, f, ph)); usec(d::upsample(xc, f, ph));
+                    if (ph < n) { user(d::downsample(xr, f, ph)); usec(d::downsample(xc, f, ph)); }
+                }
+                user(d::repelem(xr, f)); usec(d::repelem(xc, f));
+            }
+            user(d::flip(xr)); usec(d::flip(xc)); user(d::zeropad(xr, n + 3)); usec(d::zeropad(xc, n + 3));
+            for (int dl : {-n - 1, -n, -1, 0, 1, n / 2, n, n + 1}) { user(d::delayseq(xr, dl)); usec(d::delayseq(xc, dl)); }
+            if (n >= 1) user(d::linspace(-1.0, 2.0, (size_t)n));
+            user(d::arange(0, n, 1)); user(d::arange(0, n, 3)); user(d::arange(n, 0, -2)); user(d::arange(n)); user(d::arange(0.0, 0.25 * n, 0.25));
+            if (n >= 2) c.nontriv = 1;
+        });
+    }
+}
+
 int main(int argc, char** argv) {
     Ctx ctx;
     ctx.parse(argc, argv, "C17");
     g_thorough = ctx.thorough();
+    for (int i = 1; i < argc; ++i)
+        if (!strcmp(argv[i], "--asan-pass")) g_asan = true;
+    if (g_asan) {
+        run_asan_pass(ctx);
+        return ctx.finish();
+    }
     run_real_unary(ctx);
     run_angle(ctx);
     run_complex_unary(ctx);
     run_power(ctx);
     run_reductions(ctx);
+    run_dot_sweep(ctx);
     run_shapes(ctx);
     return ctx.finish();
 }
